@@ -723,6 +723,13 @@ def cmp_attr(cfg, k, iv, mv):
     if kind in ("z", "t"):
         return mv == "%s%d" % (kind, v)
     if kind == "f":
+        if mv.startswith("t"):
+            # a caller-supplied value stored under a managed key that is currently disabled (opaque token)
+            try:
+                tok = v[0] if isinstance(v, (list, tuple, np.ndarray)) else v
+                return float(tok) == float(int(mv[1:]))
+            except (TypeError, ValueError, IndexError):
+                return False
         if not mv.startswith("r"):
             return False
         mask = [int(x) for x in mv[1:].split(".")] if len(mv) > 1 else []
